@@ -79,7 +79,7 @@ class Tap:
 
 
 class World:
-    def __init__(self, classic=False, aux=False):
+    def __init__(self, classic=False, aux=False, auto_restart=False):
         from bumble.controller import Controller
         from bumble.device import Device
         from bumble.hci import Address
@@ -120,6 +120,7 @@ class World:
             self.devices.append(d)
         self.classic = classic
         self.aux = aux
+        self.auto_restart = auto_restart
         self.conns = [None] * n                   # the connection under test, as seen by sides 0 and 1
         self.handle = [None] * n
         self.aux_conns = [None, None]             # second link of stack 0 (to stack 2): [side 0's, side 2's]
@@ -158,7 +159,7 @@ class World:
     async def wait(self, aw, what='setup step'):
         """await something during set-up, advancing virtual time when only timers remain"""
         t = asyncio.ensure_future(aw)
-        limit = self.vt[0] + 5.0
+        limit = self.vt[0] + 15.0
         for _ in range(STEP_BUDGET):
             if t.done():
                 return t.result()
@@ -192,7 +193,10 @@ class World:
                 d0.connect(d1.public_address, transport=PhysicalTransport.BR_EDR),
                 d1.accept(d0.public_address)))
         else:
-            await self.wait(d1.start_advertising(advertising_interval_min=1.0))
+            # (auto-restart worlds advertise rarely: the restarted advertiser's timer would otherwise
+            #  fire a hundred thousand times within the virtual horizon)
+            await self.wait(d1.start_advertising(advertising_interval_min=5000.0 if self.auto_restart else 1.0,
+                                                 auto_restart=self.auto_restart))
             await self.wait(d0.connect(d1.random_address))
         await self.settle()
         if got.get(0) is None or got.get(1) is None:
@@ -793,6 +797,10 @@ PROCEDURES = {
     'hci_rssi': (False, prep_none, lambda w: [w.spawn('rssi', 0, 'hci_command', w.conns[0].get_rssi())]),
     'hci_features': (False, prep_none, lambda w: [
         w.spawn('features', 0, 'hci_event', w.conns[0].get_remote_le_features())]),
+    'adv_restart': (False, prep_none, lambda w: [
+        w.spawn('disconnect', 0, 'disconnect', w.conns[0].disconnect())]),
+    'adv_restart_peer': (False, prep_none, lambda w: [
+        w.spawn('disconnect', 1, 'disconnect', w.conns[1].disconnect())]),
     'disconnect': (False, prep_none, lambda w: [
         w.spawn('disconnect', 0, 'disconnect', w.conns[0].disconnect())]),
     'cl2cap_connect': (True, prep_classic_server, lambda w: [
@@ -859,6 +867,9 @@ async def _rfcomm_start(w):
 
 
 CUTS = [('disc', 0), ('disc', 1), ('loss', 0), ('loss', 1)]
+# the peripheral advertises with auto_restart: after the disconnection its stack restarts the advertising by
+# itself, in a task that is under cancel_on_event(FLUSH) while its HCI commands are in flight
+PROC_OPTIONS = {'adv_restart': {'auto_restart': True}, 'adv_restart_peer': {'auto_restart': True}}
 # uncut run does not end with a result: Read RSSI is rejected by the virtual controller; the user never answers
 OPEN_ENDED = ('hci_rssi', 'smp_pair_prompt', 'smp_pair_retry_prompt')
 # not run in the two-link variant (long; the second link adds nothing new to them)
@@ -866,6 +877,11 @@ NO_AUX = ('gatt_flood', 'coc_drain', 'gatt_discover')
 
 
 # ============================================================================= one case
+async def _gate_probe(host):
+    from bumble import hci
+    return await host.send_command(hci.HCI_Read_BD_ADDR_Command())
+
+
 def _only(snap, h):
     return {reg: [key for key in keys if key[0] == h] for reg, keys in snap.items()}
 
@@ -874,7 +890,7 @@ async def _run_case(proc, cut, k, inline=False):
     aux = proc.endswith('+aux')          # "<procedure>+aux": stack 0 also has a second, busy link to a third stack
     base_proc = proc[:-4] if aux else proc
     classic, prepare, start = PROCEDURES[base_proc]
-    w = World(classic=classic, aux=aux)
+    w = World(classic=classic, aux=aux, **PROC_OPTIONS.get(base_proc, {}))
     sides = range(w.n)
     res = {'proc': proc, 'cut': list(cut) if cut else None, 'k': k, 'inline': inline}
     try:
@@ -937,6 +953,30 @@ async def _run_case(proc, cut, k, inline=False):
         res['aux_final'] = [snapshot(w, i) for i in sides]
         if not t.done():
             t.cancel()
+    # the HCI command gate of every stack: free at quiescence, and still usable
+    res['gate'] = []
+    for i in sides:
+        h = w.devices[i].host
+        res['gate'].append({'locked': h.command_semaphore.locked(),
+                            'pending_command': h.pending_command is not None,
+                            'pending_response': h.pending_response is not None})
+    if 'budget' not in res:
+        probes = []
+        for i in sides:
+            if w.lost[i]:
+                probes.append(('power_off', asyncio.ensure_future(w.devices[i].power_off())))
+            else:
+                probes.append(('command', asyncio.ensure_future(_gate_probe(w.devices[i].host))))
+        try:
+            await w.settle()
+            if not all(t.done() for _, t in probes):
+                await w.run_timers()
+        except Budget as e:
+            res['budget'] = str(e)
+        res['gate_probe'] = [[what, outcome(t)] for what, t in probes]
+        for _, t in probes:
+            if not t.done():
+                t.cancel()
     for x in w.waiters:
         if not x['task'].done():
             x['task'].cancel()
@@ -1043,6 +1083,19 @@ def oracle(res):
         if host != dev or (not lost and ctl != host):
             bad.append((f'{tag}:agree',
                         f'{tag} k={k}: side {side} layers disagree: controller {ctl} host {host} device {dev}'))
+    for side, g in enumerate(res.get('gate', [])):
+        held = [name for name, v in sorted(g.items()) if v]
+        if held:
+            bad.append((f'{tag}:gate:{"+".join(held)}',
+                        f'{tag} k={k}: side {side}: the HCI command gate is not free although everything is quiet '
+                        f'({", ".join(held)})'))
+    for side, (what, out) in enumerate(res.get('gate_probe', [])):
+        if out == 'pending':
+            bad.append((f'{tag}:gate-probe:{what}',
+                        f'{tag} k={k}: side {side}: after the teardown a '
+                        + ('Device.power_off() on the stack that lost its transport' if what == 'power_off'
+                           else 'harmless HCI command (Read BD_ADDR)')
+                        + ' never completes: the HCI command gate is wedged'))
     if 'aux_handle' in res and 'aux_works' in res:
         # links are independent: the other link of stack 0 keeps its state and still works
         for side, h in ((0, res['aux_handle'][0]), (2, res['aux_handle'][1])):
